@@ -85,6 +85,22 @@ def _derive(stream, op, term, how):
     return getattr(stream, op)(src)
 
 
+class _FalsyExecutor:
+    """an override executor object that is falsy (e.g. an empty recording container): still 'the override given'"""
+
+    def __init__(self, f):
+        self._f = f
+
+    def __bool__(self):
+        return False
+
+    def __len__(self):
+        return 0
+
+    def __call__(self, a, title=None):
+        return self._f(a, title)
+
+
 class History:
     def __init__(self, tid, actions):
         from func_adl import EventDataset
@@ -272,7 +288,7 @@ class History:
             if a["title"] != "":
                 kw["title"] = a["title"]
             if a["op"] == "override":
-                kw["executor"] = self._override
+                kw["executor"] = _FalsyExecutor(self._override)
             task = self.loop.create_task(s.value_async(**kw))
             self._step_loop()
             fut = self.execlog[n0]["fut"] if len(self.execlog) > n0 else self.loop.create_future()
